@@ -197,8 +197,10 @@ fn main() {
             std::process::exit(allocfail::child(ctor, n));
         }
         "overflow-entries" => {
-            for e in overflow::ENTRIES {
-                println!("{}", e);
+            for sh in overflow::SHAPES {
+                for e in overflow::ENTRIES {
+                    println!("{}{}", e, sh);
+                }
             }
         }
         "overflow-child" => {
@@ -445,7 +447,7 @@ fn cmd_serde(args: &[String]) {
     ));
     j.push_str("\"by_type\":[");
     j.push_str(&st.by_type.iter().map(|x| x.to_string()).collect::<Vec<_>>().join(","));
-    j.push_str(&format!("],\"wrong_input_cases\":{},\"wrong_input_rejected\":{},\"strict_format_cases\":{},\"entry_points\":[", st.wrong_input_cases, st.wrong_input_rejected, st.strict_cases));
+    j.push_str(&format!("],\"wrong_input_cases\":{},\"wrong_input_rejected\":{},\"strict_format_cases\":{},\"de_panic_points\":{},\"unwind_blocks_left\":{},\"entry_points\":[", st.wrong_input_cases, st.wrong_input_rejected, st.strict_cases, st.de_panic_points, st.unwind_blocks_left));
     j.push_str(&st.entry_points.iter().map(|s| jstr(s)).collect::<Vec<_>>().join(","));
     j.push_str("],\"samples\":[");
     j.push_str(&st.samples.iter().map(|s| jstr(s)).collect::<Vec<_>>().join(","));
